@@ -217,6 +217,12 @@ class Scratch:
                     problems.append("rewrite %r: %s" % (spec, why))
                 else:
                     self.notes.append("rewrite applied: " + spec)
+            for spec in hf.multi.get("rewrite_in", []):
+                ok, why = apply_rewrite_in(self.dir, spec)
+                if not ok:
+                    problems.append("rewrite_in %r: %s" % (spec, why))
+                else:
+                    self.notes.append("rewrite applied inside one function: %s (%s)" % (spec, why))
             with open(target, "a") as f:
                 f.write("\n#[cfg(kani)]\n#[path = \"%s\"]\npub(crate) mod %s;\n" % (dst, hf.modname))
         for crate in crates:
@@ -255,6 +261,36 @@ def apply_rewrite(root, spec):
     with open(path, "w") as f:
         f.write(text)
     return True, ""
+
+
+def apply_rewrite_in(root, spec):
+    """spec: '<relative file> :: <regex of the fn signature line> :: <old text> ==> <new text>'
+    — replaces every occurrence of <old text> inside ONE top-level function (from the
+    signature line to the next line that is a lone closing brace in column 0).  Robust
+    against edits inside the function: zero occurrences is not an error (the compiler
+    decides whether the rewritten function still type-checks)."""
+    m = re.match(r"(\S+)\s*::\s*(.*?)\s*::\s*(.*?)\s*==>\s*(.*)$", spec)
+    if not m:
+        return False, "bad spec"
+    rel, fn_pat, old, new = m.groups()
+    path = os.path.join(root, rel)
+    if not os.path.isfile(path):
+        return False, "file missing"
+    lines = open(path).read().split("\n")
+    starts = [i for i, l in enumerate(lines) if re.search(fn_pat, l)]
+    if len(starts) != 1:
+        return False, "function anchor matched %d times (source changed)" % len(starts)
+    end = next((i for i in range(starts[0] + 1, len(lines)) if lines[i] == "}"), None)
+    if end is None:
+        return False, "end of function not found"
+    n = 0
+    for i in range(starts[0], end + 1):
+        if old in lines[i]:
+            n += lines[i].count(old)
+            lines[i] = lines[i].replace(old, new)
+    with open(path, "w") as f:
+        f.write("\n".join(lines))
+    return True, "%d occurrence(s)" % n
 
 
 # --------------------------------------------------------------------------
